@@ -575,3 +575,49 @@ theorem specRemoveP_eq_specRemove {f : Forest} {n : Nat} {keep : Keep} {t : HTre
       exact (mergeRuns_eq_mergeAdj hnl (noAdj_tail hnkr) ndlr (fun a ha b => hkeep _ _ (tl a ha))).symm
 
 end XotModel
+
+/-! ### `specMoveP = specMove` from the argument checks of the four moves -/
+
+namespace XotModel
+open HTree Spec PairAll
+
+theorem not_text_of_site_value {vp : Value} (hvp : vp.isElement = true ∨ vp.isDocument = true) : vp.isText = false := by
+  cases hvp with
+  | inl h => cases vp <;> simp_all [Value.isElement, Value.isText]
+  | inr h => cases vp <;> simp_all [Value.isDocument, Value.isText]
+
+/-- A move below a parent (`append` / `prepend`) that passes `add_structure_check`. -/
+theorem specMoveP_eq_specMove_under {f : Forest} {p c : Nat} (inv : f.Inv) (norm : f.Normal)
+    (hsc : f.structureCheck (some p) c = true) :
+    specMoveP (.lastChildOf p) c f = specMove (Keep.resident c) (.lastChildOf p) c f ∧
+    specMoveP (.firstNormalChildOf p) c f = specMove (Keep.resident c) (.firstNormalChildOf p) c f := by
+  have nd := inv.nodup
+  obtain ⟨vp, Lp, t, hgp, hgc, hpt, _, _, hvp⟩ := Forest.structureCheck_unpack nd hsc
+  have hvq := not_text_of_site_value hvp
+  exact ⟨specMoveP_eq_specMove inv norm hgc ⟨nd, hgp⟩ hpt hvq (by simp [Dest.site, Forest.isLive_of_get hgp])
+      (fun x h => by rcases h with h | h <;> cases h),
+    specMoveP_eq_specMove inv norm hgc ⟨nd, hgp⟩ hpt hvq (by simp [Dest.site, Forest.isLive_of_get hgp])
+      (fun x h => by rcases h with h | h <;> cases h)⟩
+
+/-- A move next to a reference node (`insert_after` / `insert_before`) that passes
+    `add_structure_check` and `sibling_reference_check`. -/
+theorem specMoveP_eq_specMove_beside {f : Forest} {r c : Nat} (inv : f.Inv) (norm : f.Normal)
+    (hsc : f.structureCheck (f.parent? r) c = true) (hsr : f.siblingReferenceCheck r c = true) :
+    specMoveP (.after r) c f = specMove (Keep.resident c) (.after r) c f ∧
+    specMoveP (.before r) c f = specMove (Keep.resident c) (.before r) c f := by
+  have nd := inv.nodup
+  obtain ⟨q, vq, A, kr, B, t, sq, ekr, _, hrc, hgc, hqt, _, _, hvq⟩ := sibling_checks_unpack nd hsc hsr
+  subst ekr
+  have hq : f.parent? kr.handle = some q := Forest.parent?_of_ctx sq.ctx
+  exact ⟨specMoveP_eq_specMove inv norm hgc sq hqt hvq (by simp only [Dest.site]; exact hq)
+      (fun x h => by
+        rcases h with h | h
+        · injection h with h; rw [← h]; exact hrc
+        · cases h),
+    specMoveP_eq_specMove inv norm hgc sq hqt hvq (by simp only [Dest.site]; exact hq)
+      (fun x h => by
+        rcases h with h | h
+        · cases h
+        · injection h with h; rw [← h]; exact hrc)⟩
+
+end XotModel
